@@ -121,6 +121,7 @@ where
     A: Clone + Send + Sync,
 {
     graph.ensure_undirected()?;
+    graph.ensure_not_multi_edges()?;
     ensure_nodes_exist(graph, node_names)?;
     let tads = get_triangles_and_degrees(graph, node_names);
     Ok(tads
@@ -153,6 +154,7 @@ where
     A: Clone + Send + Sync,
 {
     graph.ensure_undirected()?;
+    graph.ensure_not_multi_edges()?;
     if graph.get_all_nodes().is_empty() {
         return Ok(0.0);
     }
@@ -197,6 +199,7 @@ where
     A: Clone + Send + Sync,
 {
     graph.ensure_undirected()?;
+    graph.ensure_not_multi_edges()?;
     ensure_nodes_exist(graph, node_names)?;
     let tads = get_triangles_and_degrees(graph, node_names);
     Ok(tads
